@@ -103,7 +103,7 @@ var ruleQueryDiscipline = &core.Rule{ID: "R10.4", Min: 8,
 				if call, ok := iff.Cond.(*ssa.Call); ok && call.Block() == r.Body && len(call.Call.Args) == 2 && isPath(call.Call.Args[1]) {
 					// arg0: field #0 of the element
 					elemPath := false
-					if _, ok := elemFieldLoad(r, call.Call.Args[0]); ok {
+					if fld, ok := elemFieldLoad(r, call.Call.Args[0]); ok && fld == pathFieldOf(r.ElemAddr) {
 						elemPath = true
 					}
 					hit := retOf(r.Body.Succs[0])
@@ -511,4 +511,23 @@ func elemFieldLoad(r fde.RangeElem, v ssa.Value) (int, bool) {
 		}
 	}
 	return fld, nSt == 1
+}
+
+// pathFieldOf: the first slice-of-byte-slices field of the query struct the
+// element address points to (the member path; the accepted values come second).
+func pathFieldOf(ea *ssa.IndexAddr) int {
+	pt, ok := ea.Type().Underlying().(*types.Pointer)
+	if !ok {
+		return -1
+	}
+	st, ok := pt.Elem().Underlying().(*types.Struct)
+	if !ok {
+		return -1
+	}
+	for i := 0; i < st.NumFields(); i++ {
+		if sl, ok := st.Field(i).Type().Underlying().(*types.Slice); ok && core.IsByteSlice(sl.Elem()) {
+			return i
+		}
+	}
+	return -1
 }
